@@ -47,6 +47,11 @@ func NewJavaFullListener(nodes map[string]core_domain.CodeDataStruct, file strin
 	fileName = file
 	currentPkg = ""
 	classNodes = nil
+	mapFields = make(map[string]string)
+	localVars = make(map[string]string)
+	formalParameters = make(map[string]string)
+	currentType = ""
+	hasEnterClass = false
 	currentNode = core_domain.NewDataStruct()
 	classStringQueue = nil
 	classNodeQueue = nil
